@@ -22,6 +22,9 @@ RULE = (
     "s sqrt(|A(J)|^2 - mu) for MGDA with mu the exact min-norm^2 (support enumeration) and additionally "
     "|A(J)|^2 - mu <= 8 s^2/(T+2) when epsilon=0, tau s^2 max(1,|w|) for CAGrad (w = A.weighting(J)). Non-trivial = the plain mean "
     "conflicts with some row. Distinct = distinct (J, aggregator configuration, dtype)."
+    " Part `mgda_long_budgets`: MGDA(epsilon=0) with 30 000 (thorough: up to 100 000) iterations on 4-8 Gaussian rows. reg_eps in "
+    "{0, 1e-16, 1e-13, 1e-10} (below the documented domain) in 1/8 of the UPGrad/DualProj cases: the solver may refuse; a returned "
+    "vector must satisfy min_i (J A(J))_i >= -1e-4 s^2 (|w|+1). One case in three is widened by 90..140 000 columns."
 )
 ASSUMPTIONS = [
     "fp = K m eps(dtype) s^2 |w| with K = 500 (MGDA, CAGrad) and 100 max(1, 1e-2/sqrt(reg_eps)) for UPGrad/DualProj "
